@@ -110,7 +110,7 @@ def finish(prop, pdef, tier, seed, reg, kentries, kres, ventries, vres, wall, sc
         if r is None:
             continue
         for oid, st in r["obligations"].items():
-            obligations.append({"id": oid, "backend": "verus/z3", "kind": e.get("kind", "unbounded"), "bounds": None, "status": st["status"], "unit": e["unit"],
+            obligations.append({"id": oid, "backend": "shape-check" if e.get("kind") == "structural" else "verus/z3", "kind": e.get("kind", "unbounded"), "bounds": None, "status": st["status"], "unit": e["unit"],
                                 "via": e["id"], "time_s": st.get("time_s", 0), "cached": r.get("cached", False), "reason": st.get("reason", ""), "tail": st.get("detail", ""), "cmd": r.get("cmd", "")})
 
     failed = [o for o in obligations if o["status"] == "failed"]
@@ -212,6 +212,7 @@ def finish(prop, pdef, tier, seed, reg, kentries, kres, ventries, vres, wall, sc
             "explanation": "obligations/discharged count only clauses proved for all inputs (Kani harnesses that are loop-free over full-domain symbolic inputs: 'complete'; Verus: 'unbounded'). Bounded stand-ins are listed separately under bounded_standins and are not counted as proved.",
             "bounded_standins": {"obligations": len(bounded), "discharged": sum(o["status"] == "discharged" for o in bounded),
                                  "bounds": sorted(set(json.dumps(o["bounds"], sort_keys=True) for o in bounded if o["bounds"]))},
+            "structural_assumptions": [{"id": o["id"], "status": o["status"], "reason": o["reason"]} for o in obligations if o["kind"] == "structural"],
             "functions_under_contract": fn_spans(reg, units),
             "backends": backends,
             "served_from_cache": sum(1 for o in obligations if o["cached"]),
